@@ -28,12 +28,15 @@ pub struct TxwParams {
     pub hc_stall: bool,
     /// prepared_statements_cache_size (0 = caching off)
     pub cache: u64,
+    /// all clients announce the same application_name (no parameter sync between hand-overs:
+    /// nothing the pooler sends on its own stands between two clients' statements)
+    pub same_app: bool,
 }
 
 impl TxwParams {
     pub fn describe(&self) -> String {
         format!(
-            "mode={} pool_size={} clients={} txns={} workers={} abort%={} jitter_us={} replicas={} hc_stall={} cache={}",
+            "mode={} pool_size={} clients={} txns={} workers={} abort%={} jitter_us={} replicas={} hc_stall={} cache={} same_app={}",
             self.mode,
             self.pool_size,
             self.clients,
@@ -43,7 +46,8 @@ impl TxwParams {
             self.jitter_us,
             self.replicas,
             self.hc_stall,
-            self.cache
+            self.cache,
+            self.same_app
         )
     }
 }
@@ -144,7 +148,7 @@ fn client_main(addr: &str, ci: usize, p: &TxwParams) -> ClientTrace {
     }
     let mut conn = match Conn::connect(
         addr,
-        &crate::wire::StartupOpts::new(USER, "db", PASS).app(&format!("app_{}", cid)),
+        &crate::wire::StartupOpts::new(USER, "db", PASS).app(&if p.same_app { "app_shared".to_string() } else { format!("app_{}", cid) }),
     ) {
         Ok(c) => c,
         Err(e) => {
@@ -157,6 +161,41 @@ fn client_main(addr: &str, ci: usize, p: &TxwParams) -> ClientTrace {
     let timeout = p.connect_timeout_ms * 6 + 20_000;
     for t in 0..p.txns_per_client {
         let (kind, steps) = gen_txn(&mut rng, &cid, t, &p.gen);
+        // vanish in the middle of an autocommit COPY ... FROM STDIN (after CopyInResponse, rows flowing)?
+        if rng.below(100) < p.abort_pct && steps.len() == 1 && matches!(steps[0].kind, crate::wl::StepKind::CopyIn { .. }) {
+            let _ = conn.send(&steps[0].bytes);
+            let mut got_g = false;
+            for _ in 0..10 {
+                match conn.read_msg(3000) {
+                    Ok(m) if m.typ == b'G' => {
+                        got_g = true;
+                        break;
+                    }
+                    Ok(_) => {}
+                    Err(_) => break,
+                }
+            }
+            if got_g {
+                let _ = conn.send(&crate::proto::copy_data(b"0\tvanishing\n"));
+                sleep_ms(rng.below(5));
+            }
+            tr.t_close = now_ns();
+            match rng.below(3) {
+                0 => {
+                    tr.how_closed = "terminate_mid_copy_in".into();
+                    conn.terminate();
+                }
+                1 => {
+                    tr.how_closed = "fin_mid_copy_in".into();
+                    conn.close_fin();
+                }
+                _ => {
+                    tr.how_closed = "rst_mid_copy_in".into();
+                    conn.close_rst();
+                }
+            }
+            return tr;
+        }
         // abrupt exit in the middle of this transaction?
         if rng.below(100) < p.abort_pct && steps.len() > 1 {
             let upto = rng.range(1, steps.len() as u64 - 1) as usize;
